@@ -84,13 +84,24 @@ Proof. reflexivity. Qed.
 Lemma c_ns_push_size p c : c_ns (push_size p c) = c_ns c.
 Proof. reflexivity. Qed.
 
+(** the congruences and the induction are generic in a set [good] of nodes closed under the axes
+    allowed by [pax] (instances: Proofs/XPathAbsInv.v) and in the proof of the statement about
+    paths ([H_path]; instances: Section NormGood below, Proofs/XPathSpellingOrd.v) *)
 Section Cong.
 Variable doc : xdoc.
-Hypothesis Hinv : DocInv doc.
 Variable ns : list (option str * str).
 Hypothesis Hns : ns_lookup ns None = None.
-Notation good := (good doc).
+Variable good : node -> Prop.
+Variable pax : XPathAst.axis_spec -> bool.
+Variable xpa : XPathSyntax.axis_spec -> bool.
+Hypothesis G_axis : forall a i, pax a = true -> good i -> XPathNav.is_ok (axis_nodes doc a i) (Forall good).
+Hypothesis G_parent : forall i p, good i -> parent_node doc i = Some p -> good p.
+Hypothesis G_root_of : forall n, good n -> Forall good (root_of doc n).
+Hypothesis H_conc : forall a, xpa a = true -> pax (conc_axis a) = true.
+Hypothesis H_dos : pax (AxisName AxDescendantOrSelf) = true.
 Notation okq := (okq ns).
+Notation xok := (xaxes xpa).
+Notation sok := (step_axes xpa (xaxes xpa)).
 
 Lemma okq_xbinop o (ma ma' mb mb' : M xvalue) :
   restores ma -> restores mb -> okq ma ma' -> okq mb mb' -> okq (xbinop doc o ma mb) (xbinop doc o ma' mb').
@@ -189,11 +200,11 @@ Proof.
   - intros fl Gfl E. apply (IH fl Gfl c Hc), E.
 Qed.
 
-Lemma okq_step_sem ax test evs evs' n : not_ns_axis ax = true -> good n -> Forall2 pred_rel evs evs' ->
+Lemma okq_step_sem ax test evs evs' n : pax ax = true -> good n -> Forall2 pred_rel evs evs' ->
   okq (step_sem doc ax test evs n) (step_sem doc ax test evs' n).
 Proof.
   intros Hax Gn H c Hc r c'. unfold step_sem.
-  destruct (good_axis doc Hinv ax n Hax Gn) as [nodes [E Gnodes]]. rewrite E. cbn [bind].
+  destruct (G_axis ax n Hax Gn) as [nodes [E Gnodes]]. rewrite E. cbn [bind].
   destruct (filter_res (eval_node_test doc (c_ns c) ax test) nodes) as [tested| | |] eqn:Ef; try reflexivity.
   apply okq_xpreds; [exact H| |exact Hc]. apply filter_res_incl in Ef.
   apply Forall_forall. intros x Hx. rewrite Forall_forall in Gnodes. apply Gnodes, Ef.
@@ -237,7 +248,7 @@ Proof. intros c. unfold step_sem. cbn [axis_nodes]. unfold xp_parent. destruct (
 
 (** ** the statement *)
 Definition Bp (a : xexpr) : Prop :=
-  xnons a = true -> forall n, good n -> okq (xeval doc a n) (xeval doc (norm a) n).
+  xok a = true -> forall n, good n -> okq (xeval doc a n) (xeval doc (norm a) n).
 
 Notation nstep := XPathSyntaxLemmas.nstep.
 Notation F_steps := XPathSyntaxLemmas.F_steps.
@@ -246,7 +257,7 @@ Notation lead := XPathSyntaxLemmas.lead.
 Lemma okq_predicate_of (ev ev' : node -> M xvalue) x : restores (ev x) -> okq (ev x) (ev' x) -> okq (predicate_of ev x) (predicate_of ev' x).
 Proof. intros R H. unfold predicate_of. apply okq_bind_l; assumption. Qed.
 
-Lemma preds_rel preds : Forall Bp preds -> forallb xnons preds = true ->
+Lemma preds_rel preds : Forall Bp preds -> forallb xok preds = true ->
   Forall2 pred_rel (map (xeval doc) preds) (map (xeval doc) (map (fun q => norm_pred_top (norm q)) preds)).
 Proof.
   intros HB Hn. rewrite map_map. apply Forall2_map_same. rewrite forallb_forall in Hn. rewrite Forall_forall in *.
@@ -254,84 +265,32 @@ Proof.
   eapply okq_trans; [|apply okq_sym, pred_top_ok]. apply okq_predicate_of; [apply xeval_restores|]. apply (HB q Hq (Hn q Hq) x Gx).
 Qed.
 
-Lemma step_norm_ok (y : xstep) : step_all Bp y -> step_nons xnons y = true ->
+Lemma step_norm_ok (y : xstep) : step_all Bp y -> sok y = true ->
   forall x, good x -> okq (xstepf doc y x) (xstepf doc (nstep y) x).
 Proof.
-  destruct y as [a t preds| |]; cbn [step_all step_nons XPathSyntaxLemmas.nstep]; intros HB Hn x Gx; unfold xstepf; cbn [xstep_with].
+  destruct y as [a t preds| |]; cbn [step_all step_axes XPathSyntaxLemmas.nstep]; intros HB Hn x Gx; unfold xstepf; cbn [xstep_with].
   - apply andb_prop in Hn. destruct Hn as [Ha Hp].
-    eapply okq_trans; [apply (okq_step_sem (conc_axis a) (conc_test t) _ _ x (conc_axis_nons a Ha) Gx (preds_rel preds HB Hp))|].
+    eapply okq_trans; [apply (okq_step_sem (conc_axis a) (conc_test t) _ _ x (H_conc a Ha) Gx (preds_rel preds HB Hp))|].
     apply meq_okq. destruct a as [ax| |]; cbn [norm_axis conc_axis conc_axis_name]; [apply meq_refl|apply step_sem_at|apply step_sem_omit].
   - apply meq_okq. apply step_self.
   - apply meq_okq. apply step_parent.
 Qed.
 
-(** ** paths *)
+(** ** paths: what the instances have to provide *)
 Definition SS (y : xstep) : sep * sem_step := (SSlash, xstepf doc y).
+Definition snons (i : sep * xstep) : bool := sok (snd i).
 
-Lemma NI_syn c (l : list (sep * xstep)) :
-  Forall (fun i => step_okeq doc c (xstepf doc (snd i)) (xstepf doc (nstep (snd i)))) l ->
-  NI doc c (xrest doc l) (map SS (flat_map F_steps l)).
-Proof.
-  induction 1 as [|[s y] t Hy _ IH]; [constructor|]. cbn [snd] in Hy.
-  change (xrest doc ((s, y) :: t)) with ((s, xstepf doc y) :: xrest doc t).
-  cbn [flat_map XPathSyntaxLemmas.F_steps]. rewrite map_app. destruct s; cbn [XPathSyntaxLemmas.lead app map].
-  - apply NI_s; assumption.
-  - apply (NI_d doc c (xstepf doc y) (xstepf doc (nstep y))); assumption.
-Qed.
-
-Definition snons (i : sep * xstep) : bool := step_nons xnons (snd i).
-
-Lemma nstep_good (y : xstep) : step_nons xnons y = true -> forall x, good x -> okgl doc (xstepf doc (nstep y) x).
-Proof.
-  destruct y as [a t preds| |]; cbn [step_nons XPathSyntaxLemmas.nstep]; intros H x Gx; unfold xstepf; cbn [xstep_with].
-  - apply andb_prop in H. destruct H as [Ha _]. apply (okgl_step_sem doc Hinv); [|exact Gx].
-    destruct a as [[]| |]; try discriminate; reflexivity.
-  - apply (okgl_step_sem doc Hinv); [reflexivity|exact Gx].
-  - apply (okgl_step_sem doc Hinv); [reflexivity|exact Gx].
-Qed.
-
-Lemma norm_items_wf (l : list (sep * xstep)) : forallb snons l = true -> wfitems doc (map SS (flat_map F_steps l)).
-Proof.
-  intros H. split.
-  - unfold items_restore. apply Forall_map. apply Forall_forall. intros y _ x. cbn [SS snd]. apply xstep_restores.
-  - unfold items_good. apply Forall_map. apply Forall_forall. intros y Hy x Gx. cbn [SS snd].
-    apply in_flat_map in Hy. destruct Hy as ([s z] & Hz & Hy). rewrite forallb_forall in H. pose proof (H (s, z) Hz) as Hs. unfold snons in Hs. cbn [snd] in Hs.
-    cbn [XPathSyntaxLemmas.F_steps] in Hy. apply in_app_or in Hy. destruct Hy as [Hy|[<-|[]]]; [|apply nstep_good; assumption].
-    destruct s; cbn [XPathSyntaxLemmas.lead] in Hy; [destruct Hy|]. destruct Hy as [<-|[]].
-    unfold xstepf, dos_step. cbn [xstep_with]. apply (okgl_step_sem doc Hinv); [reflexivity|exact Gx].
-Qed.
-
-Lemma orig_items_wf (l : list (sep * xstep)) : forallb snons l = true -> wfitems doc (xrest doc l).
-Proof.
-  intros H. split; [apply xrest_restores|]. apply (xrest_good doc Hinv). rewrite forallb_forall in *. intros [s y] Hy.
-  apply (H (s, y) Hy).
-Qed.
-
-(** the path over the start nodes [B], original separators against normalised steps *)
-Lemma path_norm s0 first rest B c : c_ns c = ns -> Forall good B ->
+Definition path_norm_statement : Prop :=
+  forall s0 first rest B c, c_ns c = ns -> Forall good B ->
   forallb snons ((s0, first) :: rest) = true ->
-  Forall (fun i => step_all Bp (snd i)) ((s0, first) :: rest) ->
+  (forall i, In i ((s0, first) :: rest) -> forall x, good x -> forall l,
+     xstepf doc (snd i) x c = (Ok l, c) <-> xstepf doc (nstep (snd i)) x c = (Ok l, c)) ->
   forall x r, flat_map F_steps ((s0, first) :: rest) = x :: r ->
   forall v c',
     path_sem doc (lift (expand doc s0 B)) (xstepf doc first) (xrest doc rest) c = (Ok v, c') <->
     path_sem doc (lift (expand doc SSlash B)) (xstepf doc x) (map SS r) c = (Ok v, c').
-Proof.
-  intros Hc GB Hn HB x r Ex v c'.
-  pose proof (orig_items_wf _ Hn) as W. pose proof (norm_items_wf _ Hn) as W'. rewrite Ex in W'.
-  change (xrest doc ((s0, first) :: rest)) with ((s0, xstepf doc first) :: xrest doc rest) in W.
-  change (map SS (x :: r)) with ((SSlash, xstepf doc x) :: map SS r) in W'.
-  assert (HNI : NI doc c ((s0, xstepf doc first) :: xrest doc rest) ((SSlash, xstepf doc x) :: map SS r)).
-  { change ((s0, xstepf doc first) :: xrest doc rest) with (xrest doc ((s0, first) :: rest)).
-    change ((SSlash, xstepf doc x) :: map SS r) with (map SS (x :: r)). rewrite <- Ex. apply NI_syn.
-    rewrite forallb_forall in Hn. rewrite Forall_forall in *. intros [s y] Hy z Gz l. cbn [snd].
-    apply (step_norm_ok y (HB (s, y) Hy) (Hn (s, y) Hy) z Gz c Hc). }
-  pose proof (NI_equiv doc Hinv c _ _ HNI (proj2 W)) as S.
-  split; intros H.
-  - eapply (path_equiv doc Hinv c s0 (xstepf doc first) (xrest doc rest) SSlash (xstepf doc x) (map SS r) B v c' W W' S GB H).
-  - assert (S' : same_sel doc c ((SSlash, xstepf doc x) :: map SS r) ((s0, xstepf doc first) :: xrest doc rest)).
-    { intros z Gz. destruct (S z Gz) as [S1 S2]. split; [symmetry; exact S1|intros y; symmetry; apply S2]. }
-    eapply (path_equiv doc Hinv c SSlash (xstepf doc x) (map SS r) s0 (xstepf doc first) (xrest doc rest) B v c' W' W S' GB H).
-Qed.
+
+Hypothesis H_path : path_norm_statement.
 
 (** ** the induction *)
 Definition sep0 (st : xstart) : sep := match st with SRel => SSlash | SAbs s => s | SFrom _ s => s end.
@@ -349,19 +308,19 @@ Proof. cbn [flat_map XPathSyntaxLemmas.F_steps]. rewrite <- app_assoc. cbn [app]
 Lemma xrest_SS r : xrest doc (map (fun y => (SSlash, y)) r) = map SS r.
 Proof. unfold xrest. rewrite map_map. reflexivity. Qed.
 
-Theorem xeval_norm : forall a, Bp a.
+Theorem xeval_norm_gen : forall a, Bp a.
 Proof.
   apply (xexpr_ind2 Bp); unfold Bp.
-  - intros o a b Ha Hb H n Gn. cbn [xnons] in H. apply andb_prop in H. destruct H as [H1 H2]. cbn [norm xeval].
+  - intros o a b Ha Hb H n Gn. cbn [xaxes] in H. apply andb_prop in H. destruct H as [H1 H2]. cbn [norm xeval].
     apply okq_xbinop; try apply xeval_restores; [apply Ha|apply Hb]; assumption.
-  - intros a Ha H n Gn. cbn [xnons] in H. cbn [norm xeval]. apply okq_bind_l; [apply xeval_restores|apply Ha; assumption].
+  - intros a Ha H n Gn. cbn [xaxes] in H. cbn [norm xeval]. apply okq_bind_l; [apply xeval_restores|apply Ha; assumption].
   - intros s _ n _. apply okq_refl.
   - intros s _ n _. apply okq_refl.
   - intros q _ n _. apply okq_refl.
-  - intros f args Hargs H n Gn. cbn [xnons] in H. cbn [norm xeval]. apply okq_xcall. rewrite map_map. apply Forall2_map_same.
+  - intros f args Hargs H n Gn. cbn [xaxes] in H. cbn [norm xeval]. apply okq_xcall. rewrite map_map. apply Forall2_map_same.
     rewrite forallb_forall in H. rewrite Forall_forall in *. intros a Ha. split; [apply xeval_restores|]. apply (Hargs a Ha (H a Ha) n Gn).
-  - intros a Ha H n Gn. cbn [xnons] in H. cbn [norm xeval]. apply Ha; assumption.
-  - intros p preds Hp Hpreds H n Gn. cbn [xnons] in H. apply andb_prop in H. destruct H as [H1 H2].
+  - intros a Ha H n Gn. cbn [xaxes] in H. cbn [norm xeval]. apply Ha; assumption.
+  - intros p preds Hp Hpreds H n Gn. cbn [xaxes] in H. apply andb_prop in H. destruct H as [H1 H2].
     destruct preds as [|q t].
     + cbn [norm xeval]. apply Hp; assumption.
     + cbn [norm]. change (xeval doc (XFilter (norm p) (map (fun q0 => norm_pred_top (norm q0)) (q :: t))) n)
@@ -376,12 +335,12 @@ Proof.
               | XNodes l => r <- xpreds (map (xeval doc) (q :: t)) l ;; ret (XNodes r)
               | _ => lift (Err XErrInvalidType)
               end).
-      apply (okq_bind ns (gv doc)); [apply xeval_restores|apply Hp; assumption|apply (xeval_good doc Hinv p H1 n Gn)|].
+      apply (okq_bind ns (gv good)); [apply xeval_restores|apply Hp; assumption|apply (xeval_closed doc good pax xpa G_axis G_parent G_root_of H_conc H_dos p H1 n Gn)|].
       intros v Gv. destruct v as [?|l|?|?]; try apply okq_refl. cbn [gv] in Gv.
       apply okq_bind_l; [apply restores_xpreds, Forall_map, Forall_forall; intros a _ x; apply xeval_restores|].
       apply okq_xpreds; [apply preds_rel; assumption|exact Gv].
   - intros _ n _. apply okq_refl.
-  - intros st first rest Hst Hfirst Hrest H n Gn. cbn [xnons] in H. apply andb_prop in H. destruct H as [H12 H3].
+  - intros st first rest Hst Hfirst Hrest H n Gn. cbn [xaxes] in H. apply andb_prop in H. destruct H as [H12 H3].
     apply andb_prop in H12. destruct H12 as [H1 H2].
     rewrite XPathSyntaxLemmas.norm_path_steps, steps_eq.
     destruct (flat_map F_steps ((sep0 st, first) :: rest)) as [|x r] eqn:Ex; [exfalso; eapply steps_nonempty, Ex|].
@@ -392,18 +351,108 @@ Proof.
     assert (PN : forall B c, c_ns c = ns -> Forall good B -> forall v c',
               path_sem doc (lift (expand doc (sep0 st) B)) (xstepf doc first) (xrest doc rest) c = (Ok v, c') <->
               path_sem doc (lift (expand doc SSlash B)) (xstepf doc x) (map SS r) c = (Ok v, c')).
-    { intros B c Hc GB. apply (path_norm (sep0 st) first rest B c Hc GB Hn HB x r Ex). }
+    { intros B c Hc GB. apply (H_path (sep0 st) first rest B c Hc GB Hn); [|exact Ex].
+      rewrite forallb_forall in Hn. rewrite Forall_forall in HB. intros [s y] Hy z Gz l. cbn [snd].
+      apply (step_norm_ok y (HB (s, y) Hy) (Hn (s, y) Hy) z Gz c Hc). }
     destruct st as [|s|f s]; cbn [sep0 start_all] in *.
     + cbn [xeval]. rewrite map_map. intros c Hc v c'.
       apply (PN [n] c Hc (Forall_cons n Gn (Forall_nil _))).
     + cbn [xeval]. rewrite map_map. intros c Hc v c'.
-      apply (PN (root_of doc n) c Hc (root_of_good doc Hinv n Gn)).
+      apply (PN (root_of doc n) c Hc (G_root_of n Gn)).
     + cbn [xeval]. rewrite map_map.
-      apply (okq_bind ns (gv doc)); [apply xeval_restores|apply Hst; assumption|apply (xeval_good doc Hinv f H1 n Gn)|].
+      apply (okq_bind ns (gv good)); [apply xeval_restores|apply Hst; assumption|apply (xeval_closed doc good pax xpa G_axis G_parent G_root_of H_conc H_dos f H1 n Gn)|].
       intros v Gv. destruct v as [?|fl|?|?]; try apply okq_refl. cbn [gv] in Gv. intros c Hc v c'. apply (PN fl c Hc Gv).
 Qed.
 
 End Cong.
+
+(** ** instance: good nodes of a [DocInv] table, no namespace axis; paths by Proofs/XPathReach.v *)
+Section NormGood.
+Variable doc : xdoc.
+Hypothesis Hinv : DocInv doc.
+Variable ns : list (option str * str).
+Hypothesis Hns : ns_lookup ns None = None.
+Notation good := (good doc).
+Notation okq := (okq ns).
+Notation nstep := XPathSyntaxLemmas.nstep.
+Notation F_steps := XPathSyntaxLemmas.F_steps.
+Notation SS := (SS doc).
+Notation snons := (snons nsfree).
+
+
+Lemma NI_syn c (l : list (sep * xstep)) :
+  Forall (fun i => step_okeq doc c (xstepf doc (snd i)) (xstepf doc (nstep (snd i)))) l ->
+  NI doc c (xrest doc l) (map SS (flat_map F_steps l)).
+Proof.
+  induction 1 as [|[s y] t Hy _ IH]; [constructor|]. cbn [snd] in Hy.
+  change (xrest doc ((s, y) :: t)) with ((s, xstepf doc y) :: xrest doc t).
+  cbn [flat_map XPathSyntaxLemmas.F_steps]. rewrite map_app. destruct s; cbn [XPathSyntaxLemmas.lead app map].
+  - apply NI_s; assumption.
+  - apply (NI_d doc c (xstepf doc y) (xstepf doc (nstep y))); assumption.
+Qed.
+
+Lemma nstep_good (y : xstep) : step_nons xnons y = true -> forall x, good x -> okgl good (xstepf doc (nstep y) x).
+Proof.
+  destruct y as [a t preds| |]; cbn [step_axes XPathSyntaxLemmas.nstep]; intros H x Gx; unfold xstepf; cbn [xstep_with].
+  - apply andb_prop in H. destruct H as [Ha _]. apply (okgl_step_sem doc good not_ns_axis (good_axis doc Hinv)); [|exact Gx].
+    destruct a as [[]| |]; try discriminate; reflexivity.
+  - apply (okgl_step_sem doc good not_ns_axis (good_axis doc Hinv)); [reflexivity|exact Gx].
+  - apply (okgl_step_sem doc good not_ns_axis (good_axis doc Hinv)); [reflexivity|exact Gx].
+Qed.
+
+Lemma norm_items_wf (l : list (sep * xstep)) : forallb snons l = true -> wfitems doc (map SS (flat_map F_steps l)).
+Proof.
+  intros H. split.
+  - unfold items_restore. apply Forall_map. apply Forall_forall. intros y _ x. cbn [XPathSpelling.SS snd]. apply xstep_restores.
+  - unfold items_good. apply Forall_map. apply Forall_forall. intros y Hy x Gx. cbn [XPathSpelling.SS snd].
+    apply in_flat_map in Hy. destruct Hy as ([s z] & Hz & Hy). rewrite forallb_forall in H. pose proof (H (s, z) Hz) as Hs. unfold XPathSpelling.snons in Hs. cbn [snd] in Hs.
+    cbn [XPathSyntaxLemmas.F_steps] in Hy. apply in_app_or in Hy. destruct Hy as [Hy|[<-|[]]]; [|apply nstep_good; assumption].
+    destruct s; cbn [XPathSyntaxLemmas.lead] in Hy; [destruct Hy|]. destruct Hy as [<-|[]].
+    unfold xstepf, dos_step. cbn [xstep_with]. apply (okgl_step_sem doc good not_ns_axis (good_axis doc Hinv)); [reflexivity|exact Gx].
+Qed.
+
+Lemma orig_items_wf (l : list (sep * xstep)) : forallb snons l = true -> wfitems doc (xrest doc l).
+Proof.
+  intros H. split; [apply xrest_restores|].
+  apply (xrest_good doc good not_ns_axis nsfree (good_axis doc Hinv) (good_parent doc Hinv) conc_axis_nons).
+  rewrite forallb_forall in *. intros [s y] Hy. apply (H (s, y) Hy).
+Qed.
+
+(** the path over the start nodes [B], original separators against normalised steps *)
+Lemma path_norm s0 first rest B c : c_ns c = ns -> Forall good B ->
+  forallb snons ((s0, first) :: rest) = true ->
+  (forall i, In i ((s0, first) :: rest) -> forall x, good x -> forall l,
+     xstepf doc (snd i) x c = (Ok l, c) <-> xstepf doc (nstep (snd i)) x c = (Ok l, c)) ->
+  forall x r, flat_map F_steps ((s0, first) :: rest) = x :: r ->
+  forall v c',
+    path_sem doc (lift (expand doc s0 B)) (xstepf doc first) (xrest doc rest) c = (Ok v, c') <->
+    path_sem doc (lift (expand doc SSlash B)) (xstepf doc x) (map SS r) c = (Ok v, c').
+Proof.
+  intros Hc GB Hn HB x r Ex v c'.
+  pose proof (orig_items_wf _ Hn) as W. pose proof (norm_items_wf _ Hn) as W'. rewrite Ex in W'.
+  change (xrest doc ((s0, first) :: rest)) with ((s0, xstepf doc first) :: xrest doc rest) in W.
+  change (map SS (x :: r)) with ((SSlash, xstepf doc x) :: map SS r) in W'.
+  assert (HNI : NI doc c ((s0, xstepf doc first) :: xrest doc rest) ((SSlash, xstepf doc x) :: map SS r)).
+  { change ((s0, xstepf doc first) :: xrest doc rest) with (xrest doc ((s0, first) :: rest)).
+    change ((SSlash, xstepf doc x) :: map SS r) with (map SS (x :: r)). rewrite <- Ex. apply NI_syn.
+    apply Forall_forall. intros i Hi z Gz l. apply (HB i Hi z Gz l). }
+  pose proof (NI_equiv doc Hinv c _ _ HNI (proj2 W)) as S.
+  split; intros H.
+  - eapply (path_equiv doc Hinv c s0 (xstepf doc first) (xrest doc rest) SSlash (xstepf doc x) (map SS r) B v c' W W' S GB H).
+  - assert (S' : same_sel doc c ((SSlash, xstepf doc x) :: map SS r) ((s0, xstepf doc first) :: xrest doc rest)).
+    { intros z Gz. destruct (S z Gz) as [S1 S2]. split; [symmetry; exact S1|intros y; symmetry; apply S2]. }
+    eapply (path_equiv doc Hinv c SSlash (xstepf doc x) (map SS r) s0 (xstepf doc first) (xrest doc rest) B v c' W' W S' GB H).
+Qed.
+
+Theorem xeval_norm : forall a, xnons a = true -> forall n, good n -> okq (xeval doc a n) (xeval doc (norm a) n).
+Proof.
+  apply (xeval_norm_gen doc ns Hns good not_ns_axis nsfree (good_axis doc Hinv) (good_parent doc Hinv) (root_of_good doc Hinv)
+           conc_axis_nons eq_refl).
+  intros s0 first rest B c Hc GB Hn Hsteps x r Ex. apply (path_norm s0 first rest B c Hc GB Hn Hsteps x r Ex).
+Qed.
+
+End NormGood.
+
 
 (** ** the namespace axis does not come or go with normalisation *)
 Lemma xnons_npt q : xnons (norm_pred_top q) = xnons q.
